@@ -250,6 +250,16 @@ def c16(tier, args):
         keep |= {"g1-i48-i256", "kv1-classes", "kv8-prefix-split", "g4-leaf-split", "three-level", "sparse", "g1-full-256",
                  "below-i16"}
     us = [u for u in engine_b.all_universes(tier) if u["id"] in keep]
+    if tier == "quick":
+        # 48 runs per universe: the quick tier uses reduced delta sets (6 keys, 5 around the I48 boundary)
+        red = []
+        for u in us:
+            u = dict(u)
+            n = 5 if len(u["base"]) >= 10 else 6
+            u["delta"] = u["delta"][:n]
+            u["variants"] = [v for v in u["variants"] if v < n]
+            red.append(u)
+        us = red
     if args.only:
         us = [u for u in us if args.only in u["id"]]
     runs = []
